@@ -227,8 +227,8 @@ def variant(cls, params, key, first_positional=None):
             # a user's subclass that only changes the DEFAULTS of the parameters (and is then used with its defaults)
             names = list(params)
             ns = {"_d": dict(params), "_base": cls}
-            src = ("def __init__(self, *, " + ", ".join(f"{n}=_d[{n!r}]" for n in names) + "):\n"
-                   "    _base.__init__(self, " + ", ".join(f"{n}={n}" for n in names) + ")\n")
+            src = ("def __init__(self, *, " + ", ".join(f"{n}=_d[{n!r}]" for n in names) + ", **kwargs):\n"
+                   "    _base.__init__(self, " + ", ".join(f"{n}={n}" for n in names) + ", **kwargs)\n")
             exec(src, ns)       # noqa: S102  (parameter names come from the harness's own tables)
             sub = type(cls.__name__, (cls,), {"__init__": ns["__init__"], "__module__": cls.__module__,
                                               "_skcriteria_parameters": list(cls._skcriteria_parameters)})
